@@ -154,6 +154,13 @@ def check_eq(case, ctx):
                 setattr(conv, "knotvector" + sfx_[k_], kvc)
             conv.ctrlpts = [[c + 1.0 for c in q] for q in d["P"]]
             ctx.label("converted-twin-edited")
+        if d["kind"] == "curve":
+            from geomdl import operations
+            pcs = operations.decompose_curve(a)
+            lo_, hi_ = pcs[0].domain
+            operations.insert_knot(pcs[0], [lo_ + 0.625 * (hi_ - lo_)], [1])
+            pcs[0].degree = pcs[0].degree
+            ctx.label("decomposed-piece-edited")
         k2 = (case["idx"] // 3) % len(sfx_)
         try:
             setattr(a, "knotvector" + sfx_[k2], [0.0] * len(d["kv"][k2]))          # no non-empty span: cannot be normalised
